@@ -920,6 +920,567 @@ def run_r10(ctx, rule):
             rule.check(bad is None, "%s/verbatim" % nid, "%s hands out the consumed text verbatim (cut off: %s)%s" % (short(nid), cut, "" if bad is None else " -- but " + bad), f.loc(bb))
     rule.note("text_tokens", n)
 
+# ---- R11: whole-file writers and parsers agree on the sections ------------------------------------------------
+def _places(o, out):
+    if isinstance(o, dict):
+        if "l" in o and "p" in o and isinstance(o["p"], list):
+            out.append(o)
+        for v in o.values():
+            _places(v, out)
+    elif isinstance(o, list):
+        for v in o:
+            _places(v, out)
+
+
+AIG_ADTS = ("flussab_aiger::aig::Aig", "flussab_aiger::aig::OrderedAig")
+
+
+def section_sequence(facts, fn, mode):
+    """the fields of the circuit value in the order the function works through them: for a writer the fields it
+    reads behind the header, for a parser the fields it fills.  A field touched inside a loop stands at the
+    place of its outermost loop; places are ordered by dominance (the sections follow each other)."""
+    c = cfg(fn)
+    loops = c.loops()
+    dom = c.dom()
+    sy = sym(fn)
+    names = set(fl["name"] for a in AIG_ADTS if a in facts.adts for v in facts.adts[a]["variants"] for fl in v["fields"])
+    hdr = [bb for bb, t in fn.calls() if norm(util.cname(t)).endswith("write_header")]
+
+    def key(b):
+        hs = [h for h, body in loops.items() if b in body]
+        if not hs:
+            return b
+        hs.sort(key=lambda h: len(dom[h]))
+        return hs[0]
+
+    occ = []
+    for bi, b in enumerate(fn.blocks):
+        if b["cleanup"] or bi not in c.reach:
+            continue
+        if mode == "w" and not (hdr and hdr[0] in dom[bi] and bi != hdr[0]):
+            continue
+        items = []
+        for s in b["stmts"]:
+            if s["k"] != "assign":
+                continue
+            ps = []
+            _places(s if mode == "w" else {"lhs": s["lhs"]}, ps)
+            items += ps
+        t = b["term"]
+        if t["k"] == "call":
+            cn = norm(util.cname(t))
+            if mode == "w":
+                ps = []
+                _places(t["args"], ps)
+                items += ps
+            else:
+                if cn.rsplit("::", 1)[-1] in ("push", "insert", "extend", "extend_from_slice", "push_str"):
+                    e = sy.operand(t["args"][0])
+                    for x in subexprs(e):
+                        if x[0] == "f" and x[2] in names:
+                            occ.append((key(bi), x[2]))
+                            break
+                ps = []
+                _places(t["dest"], ps)
+                items += ps
+        for p in items:
+            for pr in p["p"]:
+                if isinstance(pr, dict) and pr.get("of") in AIG_ADTS:
+                    occ.append((key(bi), pr["name"]))
+                    break
+    keys = sorted(set(k for k, _ in occ), key=lambda k: (len(dom[k]), k))
+    out = []
+    for k in keys:
+        for kk, n in occ:
+            if kk == k and (not out or out[-1] != n):
+                out.append(n)
+    return out, bool(hdr)
+
+
+def _stem(s):
+    if s.endswith("_count"):
+        s = s[: -len("_count")]
+    if s.endswith("ies"):
+        return s[:-3] + "y"
+    if s.endswith("ches"):
+        return s[:-2]
+    if s.endswith("s"):
+        return s[:-1]
+    return s
+
+
+def run_r11(ctx, rule):
+    """What `write_aig` / `write_ordered_aig` emit must be what `Parser::parse` of the same format reads back.  Two
+    structural necessary conditions, extracted from both sides: (a) the writer works through the fields of the
+    circuit in exactly the order in which the parser fills them (inputs are implied in the ordered form and in the
+    binary format); (b) every count in the header the writer builds is taken from the field of the same name."""
+    facts = ctx.facts
+    n = 0
+    for mod in ("ascii", "binary"):
+        ps = [f for i, f in facts.fns.items() if norm(i) == "flussab_aiger::%s::Parser::parse" % mod]
+        if not ps:
+            rule.bad("%s/parse-anchor" % mod, "anchor missing: %s::Parser::parse" % mod, kind="anchor-missing")
+            continue
+        pseq, _ = section_sequence(facts, ps[0], "p")
+        pseq = [x for x in pseq if x not in ("max_var_index", "input_count")]
+        for w in ("write_aig", "write_ordered_aig"):
+            ws = [f for i, f in facts.fns.items() if norm(i) == "flussab_aiger::%s::Writer::%s" % (mod, w)]
+            if not ws:
+                continue
+            f = ws[0]
+            n += 1
+            wseq, has_hdr = section_sequence(facts, f, "w")
+            if not has_hdr:
+                rule.bad("%s::%s/header" % (mod, w), "%s::Writer::%s does not call write_header" % (mod, w), f.loc(), kind="anchor-missing")
+                continue
+            wseq = ["inputs" if x == "input_count" else x for x in wseq if x != "max_var_index"]
+            want = list(pseq)
+            if "inputs" not in want and "inputs" in wseq:
+                want = ["inputs"] + want
+            if "inputs" in want and "inputs" not in wseq:
+                want = [x for x in want if x != "inputs"]
+            rule.check(wseq == want, "%s::%s/section-order" % (mod, w), "%s::Writer::%s emits the sections in the order %s::Parser::parse fills them (writer: %s; parser: %s)" % (mod, w, mod, " ".join(wseq), " ".join(want)), f.loc())
+            # (b) header counts
+            sy = sym(f)
+            found = False
+            for bi, b in enumerate(f.blocks):
+                for s in b["stmts"]:
+                    if s["k"] == "assign" and s["rv"]["k"] == "agg" and (s["rv"].get("adt") or "").endswith("::Header"):
+                        found = True
+                        adt = facts.adts.get(s["rv"]["adt"])
+                        fields = [fl["name"] for fl in adt["variants"][0]["fields"]] if adt else []
+                        for name, o in zip(fields, s["rv"]["ops"]):
+                            e = sy.operand(o)
+                            src = [x[2] for x in subexprs(e) if x[0] == "f" and not x[2].isdigit()]
+                            ok = len(src) == 1 and _stem(src[0]) == _stem(name)
+                            rule.check(ok, "%s::%s/header/%s" % (mod, w, name), "%s::Writer::%s: header field %s is taken from the field of the same name (%s)" % (mod, w, name, sy.show(e)[:60]), f.loc(bi))
+            if not found:
+                rule.bad("%s::%s/header-value" % (mod, w), "no Header value is built in %s::Writer::%s" % (mod, w), f.loc(), kind="anchor-missing")
+    if n < 3:
+        rule.bad("writers", "only %d whole-file writers found (3 counted)" % n, kind="anchor-missing")
+
+# ---- R5b: only trailing zero counts are left out of the header ---------------------------------------------
+BACKWARD = ("split_last", "last", "next_back", "rposition", "rfind", "rev", "rsplit", "pop", "strip_suffix", "trim_end_matches", "rsplitn")
+FORWARD = ("next", "split_first", "first", "position", "find", "any", "all", "take_while", "skip_while", "find_map", "map_while", "strip_prefix", "index", "get", "get_unchecked")
+
+
+def _derivation_calls(fn, e, depth=0, seen=None):
+    """last path segments of the calls an expression's value is derived from (through named snapshots)"""
+    sy = sym(fn)
+    seen = seen if seen is not None else set()
+    out = set()
+    if depth > 8 or not isinstance(e, tuple):
+        return out
+    for x in subexprs(e):
+        if x[0] == "call":
+            out.add(norm(x[2]).rsplit("::", 1)[-1])
+        if x[0] == "l" and x[1] not in seen:
+            seen.add(x[1])
+            for d in sy.defs.get(x[1], []):
+                if d[0] == "stmt":
+                    out |= _derivation_calls(fn, sy.rvalue(d[3]), depth + 1, seen)
+                else:
+                    t = d[2]
+                    out.add(norm(util.cname(t)).rsplit("::", 1)[-1])
+                    for a in t["args"]:
+                        out |= _derivation_calls(fn, sy.operand(a), depth + 1, seen)
+    return out
+
+
+def _reach_within(c, start, body):
+    seen, st = set(), [start]
+    while st:
+        x = st.pop()
+        if x in seen or x not in body:
+            continue
+        seen.add(x)
+        st.extend(c.succ[x])
+    return seen
+
+
+def run_r5b(ctx, rule):
+    """The AIGER 1.9 counts behind the first five header fields may be left out only as a *suffix* of zeros: the
+    parser fills the fields in order, so a zero count that is followed by a non-zero one must be written.  Decided
+    from the direction in which `write_header` examines the fields: a test `field == 0` / `!= 0` may decide where
+    the written part ends only in a traversal from the back (split_last, rposition, rev ..); in a traversal from
+    the front such a test must not end the loop (and must not be the predicate of position / take_while ..)."""
+    facts = ctx.facts
+    n = 0
+    for mod in ("ascii", "binary"):
+        wf = [f for i, f in facts.fns.items() if norm(i) == "flussab_aiger::%s::Writer::write_header" % mod]
+        if not wf:
+            rule.bad("%s/write_header" % mod, "anchor missing: %s::Writer::write_header" % mod, kind="anchor-missing")
+            continue
+        wf = wf[0]
+        bodies = [(wf, None)]
+        for bi, b in enumerate(wf.blocks):
+            for st in b["stmts"]:
+                if st["k"] == "assign" and st["rv"]["k"] == "agg" and st["rv"].get("closure") in facts.fns:
+                    # the combinator the closure is handed to
+                    hof = None
+                    lhs = st["lhs"]["l"]
+                    for bb, t in wf.calls():
+                        if any((a.get("mv") or a.get("cp") or {}).get("l") == lhs for a in t["args"]):
+                            hof = (norm(util.cname(t)).rsplit("::", 1)[-1], _derivation_calls(wf, sym(wf).operand(t["args"][0])))
+                    bodies.append((facts.fns[st["rv"]["closure"]], hof))
+        for f, hof in bodies:
+            sy = sym(f)
+            c = cfg(f)
+            loops = c.loops()
+            for s_bb in sorted(c.reach):
+                if f.term(s_bb)["k"] != "switch":
+                    continue
+                for tgt, fa in guards.switch_edges(f, s_bb):
+                    x = None
+                    if fa[0] == "cmp" and fa[1] in ("Eq", "Ne") and ("c", 0) in (fa[2], fa[3]):
+                        x = fa[3] if fa[2] == ("c", 0) else fa[2]
+                    elif fa[0] in ("eq",) and fa[2] == 0 and fa[1][0] != "discr":
+                        x = fa[1]
+                    if x is None:
+                        continue
+                    names = _derivation_calls(f, x)
+                    if hof is not None:
+                        # inside a predicate closure: the element is the closure's parameter
+                        if not mentions(x, lambda y: y[0] == "l" and sy.is_arg(y[1])) and not names:
+                            continue
+                        direction = "backward" if (hof[0] in BACKWARD or hof[1] & set(BACKWARD)) else "forward" if hof[0] in FORWARD else None
+                        where = "predicate of %s" % hof[0]
+                        exits = True
+                    else:
+                        if names & {"len", "count", "trailing_zeros"} and not names & (set(BACKWARD) | set(FORWARD)):
+                            continue  # a test of a length, not of a field
+                        direction = "backward" if names & set(BACKWARD) else "forward" if names & set(FORWARD) else None
+                        inl = [h for h, body in loops.items() if s_bb in body]
+                        if not inl:
+                            continue
+                        h = sorted(inl, key=lambda hh: len(loops[hh]))[0]
+                        # does either outcome of the test leave the traversal?
+                        exits = any(t2 not in loops[h] or h not in _reach_within(c, t2, loops[h]) for t2 in c.succ[s_bb])
+                        where = "loop"
+                    if direction is None:
+                        continue
+                    n += 1
+                    key = "%s/write_header/%s-%s" % (mod, where.split()[0], guards.show_fact(f, fa)[:24].replace(" ", ""))
+                    if direction == "backward":
+                        rule.ok("%s::write_header decides on a zero field in a traversal from the back (%s)" % (mod, where), f.loc(s_bb))
+                    elif exits:
+                        rule.bad(key + "/front-to-back", "%s::write_header ends the written fields at a zero test made front to back (%s): a zero count followed by a non-zero one would cut the later fields off, and the parser fills them in order" % (mod, where), f.loc(s_bb))
+                    else:
+                        rule.ok("%s::write_header tests a field for zero front to back without ending the traversal there" % mod, f.loc(s_bb))
+    if n == 0:
+        rule.bad("write_header/zero-tests", "no zero test of a header field found in the ascii header writer (the omission of trailing zero counts was confirmed by hand)", kind="anchor-missing")
+
+# ---- R12: fields are written in the order in which they are parsed ------------------------------------------
+def _field_key(place):
+    """(adt, variant, field, element) named by the last field projection of a place (with the element index if an
+    array element of that field is meant), or None"""
+    pr = place["p"]
+    last = None
+    for i, x in enumerate(pr):
+        if isinstance(x, dict) and "f" in x and x.get("of"):
+            vn = None
+            if i > 0 and isinstance(pr[i - 1], dict) and "downcast" in pr[i - 1]:
+                vn = pr[i - 1].get("vname")
+            elem = None
+            if i + 1 < len(pr) and isinstance(pr[i + 1], dict) and "cidx" in pr[i + 1]:
+                elem = pr[i + 1]["cidx"]
+            last = (x["of"], vn, x["name"], elem)
+    return last
+
+
+def _resolve_local_place(fn, l, depth=0):
+    """the place a temporary was copied / borrowed from (single definition), following reborrows"""
+    if depth > 6:
+        return None
+    defs = []
+    for b in fn.blocks:
+        for st in b["stmts"]:
+            if st["k"] == "assign" and st["lhs"] == {"l": l, "p": []}:
+                defs.append(st["rv"])
+    if len(defs) != 1:
+        return None
+    rv = defs[0]
+    p = None
+    if rv["k"] == "use":
+        p = rv["a"].get("cp") or rv["a"].get("mv")
+    elif rv["k"] in ("ref", "rawptr"):
+        p = rv["p"]
+    if p is None:
+        return None
+    if _field_key(p) is not None:
+        return p
+    if p["p"] in ([], ["*"]):
+        return _resolve_local_place(fn, p["l"], depth + 1)
+    return None
+
+
+def writer_field_orders(facts, fn):
+    """{(adt, variant): [field keys in the order of the calls that emit them]} for one writer function"""
+    c = cfg(fn)
+    dom = c.dom()
+    seq = []
+    for bb, t in fn.calls():
+        if bb not in c.reach:
+            continue
+        for a in t["args"]:
+            p = a.get("cp") or a.get("mv")
+            if p is None:
+                continue
+            k = _field_key(p)
+            if k is None and not p["p"]:
+                q = _resolve_local_place(fn, p["l"])
+                k = _field_key(q) if q is not None else None
+            if k is not None:
+                seq.append((len(dom[bb]), bb, k))
+    out = {}
+    for _, bb, k in sorted(seq):
+        lst = out.setdefault((k[0], k[1]), [])
+        if (k[2], k[3]) not in lst:
+            lst.append((k[2], k[3]))
+    return out
+
+
+def parser_field_orders(facts, fn):
+    """{(adt, variant): [field keys in the order of the token calls that produce them]} for one parser function"""
+    c = cfg(fn)
+    dom = c.dom()
+    sy = sym(fn)
+
+    def pos(e):
+        ps = set(x[1] for x in subexprs(e) if x[0] == "call" and "::token::" in norm(x[2]))
+        if len(ps) != 1:
+            return None  # no token behind it, or built from several tokens (`ext_op.unary_op(pad)`): no single place
+        return max((len(dom[b]) for b in ps if b in dom), default=None)
+
+    out = {}
+    for bi, b in enumerate(fn.blocks):
+        if bi not in c.reach:
+            continue
+        for st in b["stmts"]:
+            if st["k"] != "assign" or st["rv"]["k"] != "agg" or not st["rv"].get("adt"):
+                continue
+            rv = st["rv"]
+            adt = facts.adts.get(rv["adt"])
+            if adt is None:
+                continue
+            vname = rv.get("variant") if adt.get("kind") == "enum" else None
+            vs = [v for v in adt["variants"] if adt.get("kind") != "enum" or v["name"] == vname]
+            if not vs:
+                continue
+            names = [fl["name"] for fl in vs[0]["fields"]]
+            items = []
+            for nm, o in zip(names, rv["ops"]):
+                e = sy.operand(o)
+                if e[0] == "agg" and e[1] == "array":
+                    for j, el in enumerate(e[3]):
+                        pp = pos(el)
+                        if pp is not None:
+                            items.append((pp, (nm, j)))
+                else:
+                    pp = pos(e)
+                    if pp is not None:
+                        items.append((pp, (nm, None)))
+            if len(items) >= 2:
+                out.setdefault((rv["adt"], vname), []).append([k for _, k in sorted(items)])
+    return out
+
+
+def run_r12(ctx, rule):
+    """A value is written field by field and parsed token by token; the two orders must agree or the value read back
+    has its fields exchanged (`next <sort> <state> <value>`, the operands of a binary operator, `slice <u> <l>`).
+    Extracted on both sides: the parser builds a struct or variant from the results of token calls -- the order of
+    those calls; a writer hands fields of the same struct or variant to emitting calls -- the order of those calls.
+    Compared per struct / variant on the fields both sides mention."""
+    facts = ctx.facts
+    worders = {}
+    for f in facts.fns.values():
+        if f.crate not in ("flussab_btor2", "flussab_aiger", "flussab_cnf") or f.kind == "Closure":
+            continue
+        nm = norm(f.id).rsplit("::", 1)[-1]
+        if not nm.startswith("write"):
+            continue
+        for k, v in writer_field_orders(facts, f).items():
+            if len(v) >= 2:
+                worders.setdefault(k, []).append((f, v))
+    n = 0
+    for f in sorted(facts.fns.values(), key=lambda x: x.id):
+        if f.crate not in ("flussab_btor2", "flussab_aiger", "flussab_cnf"):
+            continue
+        for k, lists in parser_field_orders(facts, f).items():
+            if k not in worders:
+                continue
+            for plist in lists:
+                for wf, wlist in worders[k]:
+                    common = [x for x in plist if x in wlist]
+                    if len(common) < 2:
+                        continue
+                    n += 1
+                    wcommon = [x for x in wlist if x in common]
+                    show = lambda l: " ".join("%s%s" % (a, "" if b is None else "[%d]" % b) for a, b in l)
+                    what = "%s%s" % (k[0].rsplit("::", 1)[-1], "::" + k[1] if k[1] else "")
+                    rule.check(common == wcommon, "%s/field-order/%s" % (what, short(norm(wf.id))), "%s: parsed as (%s) in %s, written as (%s) in %s" % (what, show(common), short(norm(f.id)), show(wcommon), short(norm(wf.id))), wf.loc())
+    if n < 4:
+        rule.bad("field-order/sites", "only %d struct / variant orders compared between parsers and writers (at least 4 counted by hand: Assignment, Array, Binary, Ternary)" % n, kind="anchor-missing")
+    rule.note("compared", n)
+
+# ---- R13: the binary and-gate deltas form the same chain on both sides -------------------------------------
+def run_r13(ctx, rule):
+    """binary AIGER and gates: the writer emits `code - in0` and then `in0 - in1` (in0 the larger input), the reader
+    takes the first delta from the running code and the second from the first result, and both step the running code
+    by 2.  Decided on the expressions: the writer's two deltas are subtractions that chain (the second minuend is the
+    first subtrahend, the first minuend is the running code); the reader's two references chain the same way and the
+    two results become inputs[0], inputs[1] in that order."""
+    facts = ctx.facts
+    ws = [g for i, g in facts.fns.items() if norm(i) == "flussab_aiger::binary::Writer::write_and_gate"]
+    rs = [g for i, g in facts.fns.items() if norm(i) == "flussab_aiger::binary::ParseAndGates::next_and_gate"]
+    if not ws or not rs:
+        rule.bad("and-gate/anchors", "anchor missing: binary write_and_gate / next_and_gate", kind="anchor-missing")
+        return
+    w, r = ws[0], rs[0]
+
+    def expand(sy, e, n=4):
+        for _ in range(n):
+            if e[0] == "l":
+                e2 = sy.origin(e)
+                if e2 == e:
+                    break
+                e = e2
+        return e
+
+    def is_sub(e):
+        return e[0] in ("bin", "ovf") and e[1].startswith("Sub")
+
+    sw = sym(w)
+    cw = cfg(w)
+    wcalls = sorted([(len(cw.dom()[bb]), bb, t) for bb, t in w.calls() if norm(util.cname(t)).endswith("write_binary_uint")])
+    if len(wcalls) != 2:
+        rule.bad("and-gate/writer-deltas", "write_and_gate emits %d varints (2 expected)" % len(wcalls), w.loc(), kind="anchor-missing")
+    else:
+        d0 = expand(sw, sw.operand(wcalls[0][2]["args"][1]))
+        d1 = expand(sw, sw.operand(wcalls[1][2]["args"][1]))
+        ok = is_sub(d0) and is_sub(d1)
+        chain = ok and strip_bb(expand(sw, d0[3])) == strip_bb(expand(sw, d1[2]))
+        from_code = ok and strip_bb(expand(sw, d0[2])) == ("f", ("l", 1), "code")
+        rule.check(bool(chain and from_code), "and-gate/writer-chain", "the writer emits code - in0, then in0 - in1 (first %s, second %s)" % (sw.show(d0)[:50], sw.show(d1)[:50]), w.loc(wcalls[0][1]))
+    sr = sym(r)
+    cr = cfg(r)
+    rcalls = sorted([(len(cr.dom()[bb]), bb, t) for bb, t in r.calls() if norm(util.cname(t)).endswith("token::delta_code")])
+    if len(rcalls) != 2:
+        rule.bad("and-gate/reader-deltas", "next_and_gate reads %d deltas (2 expected)" % len(rcalls), r.loc(), kind="anchor-missing")
+        return
+    ref0 = expand(sr, sr.operand(rcalls[0][2]["args"][1]))
+    ref1 = expand(sr, sr.operand(rcalls[1][2]["args"][1]))
+    first_from_code = strip_bb(ref0) in (("f", ("f", ("l", 1), "parser"), "code"), ("f", ("l", 1), "code"))
+    second_from_first = mentions(ref1, lambda x: x[0] == "call" and x[1] == rcalls[0][1])
+    rule.check(first_from_code and second_from_first, "and-gate/reader-chain", "the reader takes the first delta from the running code and the second from the first input (references %s, %s)" % (sr.show(ref0)[:40], sr.show(ref1)[:60]), r.loc(rcalls[0][1]))
+    arr = None
+    for b in r.blocks:
+        for st in b["stmts"]:
+            if st["k"] == "assign" and st["rv"]["k"] == "agg" and st["rv"].get("ak") == "array" and len(st["rv"]["ops"]) == 2:
+                arr = sr.rvalue(st["rv"])
+    ok_arr = arr is not None and mentions(arr[3][0], lambda x: x[0] == "call" and x[1] == rcalls[0][1]) and not mentions(arr[3][0], lambda x: x[0] == "call" and x[1] == rcalls[1][1]) and mentions(arr[3][1], lambda x: x[0] == "call" and x[1] == rcalls[1][1])
+    rule.check(bool(ok_arr), "and-gate/reader-inputs-order", "the first result becomes inputs[0], the second inputs[1]", r.loc())
+    # both sides step the running code by 2
+    for side, f, sy in (("writer", w, sw), ("reader", r, sr)):
+        steps = []
+        for ff, bi, si, name in util.field_stores(facts, None) if False else []:
+            pass
+        for bi, b in enumerate(f.blocks):
+            for st in b["stmts"]:
+                if st["k"] == "assign" and any(isinstance(x, dict) and x.get("name") == "code" for x in st["lhs"]["p"]):
+                    steps.append(sy.rvalue(st["rv"]))
+            t = b["term"]
+            if t["k"] == "call" and any(isinstance(x, dict) and x.get("name") == "code" for x in t["dest"]["p"]):
+                steps.append(("call", bi, util.cname(t), tuple(sy.operand(a) for a in t["args"])))
+        ok_step = any(mentions(e, lambda x: x == ("c", 2)) for e in steps)
+        rule.check(ok_step, "and-gate/%s-step" % side, "the %s advances the running code by 2 per gate" % side, f.loc())
+
+# ---- R14: BTOR2 placeholders are filled from the buffer that was filled for them ---------------------------------
+def run_r14(ctx, rule):
+    """The BTOR2 parser builds a line with placeholders (`BinaryConst("")`, `Justice(&[])`, an empty symbol) while the
+    text goes into its per-line buffers, and `Line::update_bufs` points the placeholders at the buffers before the
+    line is handed out.  Decided: every variant the parser builds with an empty placeholder has a store in
+    `update_bufs` on the same variant; each store takes the parameter whose argument at the call site is the buffer the
+    parser filled for that kind (constants: const_buf, justice conditions: node_buf, symbol: symbol_buf)."""
+    facts = ctx.facts
+    ub = [g for i, g in facts.fns.items() if norm(i) == "flussab_btor2::btor2::Line::update_bufs"]
+    if not ub:
+        rule.bad("update_bufs/anchor", "anchor missing: Line::update_bufs", kind="anchor-missing")
+        return
+    ub = ub[0]
+    # stores through a reference into the line: variant path -> parameter
+    def variants_of(place):
+        return tuple(x.get("vname") for x in place["p"] if isinstance(x, dict) and "downcast" in x) + tuple(x["name"] for x in place["p"] if isinstance(x, dict) and "f" in x and not x["name"].isdigit())
+
+    def param_of(f, operand, depth=0):
+        p = operand.get("cp") or operand.get("mv")
+        if p is None or depth > 4:
+            return None
+        if 1 <= p["l"] <= f.argc:
+            return p["l"]
+        for b in f.blocks:
+            for st in b["stmts"]:
+                if st["k"] == "assign" and st["lhs"] == {"l": p["l"], "p": []}:
+                    rv = st["rv"]
+                    if rv["k"] in ("ref", "rawptr"):
+                        return rv["p"]["l"] if 1 <= rv["p"]["l"] <= f.argc else None
+                    if rv["k"] == "use":
+                        return param_of(f, rv["a"], depth + 1)
+        return None
+
+    stores = {}
+    for b in ub.blocks:
+        for st in b["stmts"]:
+            if st["k"] != "assign" or st["lhs"]["p"] != ["*"]:
+                continue
+            tgt = st["lhs"]["l"]
+            par = param_of(ub, st["rv"]["a"]) if st["rv"]["k"] == "use" else None
+            # every definition of the reference that is stored through
+            for b2 in ub.blocks:
+                for s2 in b2["stmts"]:
+                    if s2["k"] == "assign" and s2["lhs"] == {"l": tgt, "p": []} and s2["rv"]["k"] in ("ref", "rawptr"):
+                        vs = variants_of(s2["rv"]["p"])
+                        kind = "justice" if "Justice" in vs else "const:" + [v for v in vs if v in ("Binary", "Hex", "Decimal")][0] if any(v in vs for v in ("Binary", "Hex", "Decimal")) else "symbol" if "Some" in vs or "symbol" in vs else "?"
+                        stores[kind] = par
+    # the call site: which buffer feeds which parameter
+    feeds = {}
+    n_calls = 0
+    for f, bb, t in util.calls_to(facts, lambda x: x == "flussab_btor2::btor2::Line::update_bufs"):
+        n_calls += 1
+        sy = sym(f)
+        for k, a in enumerate(t["args"]):
+            e = sy.operand(a)
+            for x in subexprs(e):
+                if x[0] == "f" and x[2] in ("const_buf", "symbol_buf", "node_buf"):
+                    feeds[k + 1] = x[2]
+    if n_calls == 0:
+        rule.bad("update_bufs/call", "update_bufs is never called: placeholders would be handed out", kind="anchor-missing")
+    # placeholders the parser builds
+    wanted = {}
+    for f in facts.fns.values():
+        if f.crate != "flussab_btor2" or "::parser::" not in norm(f.id):
+            continue
+        sy = sym(f)
+        for bi, b in enumerate(f.blocks):
+            for st in b["stmts"]:
+                if st["k"] == "assign" and st["rv"]["k"] == "agg" and st["rv"].get("adt"):
+                    rv = st["rv"]
+                    es = [sy.operand(o) for o in rv["ops"]]
+                    empty = any(e == ("cb", b"") or (e[0] in ("promoted", "c?", "cast") and True and rv.get("variant") == "Justice") for e in es)
+                    a = rv["adt"].rsplit("::", 1)[-1]
+                    if a in ("BinaryConst", "HexConst", "DecimalConst") and any(e == ("cb", b"") for e in es):
+                        wanted["const:" + a[: -len("Const")]] = f.loc(bi)
+                    if rv.get("variant") == "Justice":
+                        wanted["justice"] = f.loc(bi)
+    want_buf = {"justice": "node_buf", "symbol": "symbol_buf"}
+    for k in sorted(set(wanted) | {"symbol"}):
+        par = stores.get(k)
+        buf = feeds.get(par)
+        need = want_buf.get(k, "const_buf")
+        rule.check(par is not None and buf == need, "update_bufs/%s" % k, "the %s placeholder is pointed at %s before the line is handed out (store from parameter %s, fed by %s)" % (k, need, par, buf), wanted.get(k, ub.loc()))
+    if len(wanted) < 4:
+        rule.bad("placeholders/sites", "only %d kinds of placeholders found in the parser (3 constant kinds and the justice conditions counted)" % len(wanted), kind="anchor-missing")
+
 
 def run(ctx):
     r1 = ctx.rule("C03-R1", "BTOR2 keywords: writer and reader tables are the same bijection and cover every variant", floor=130)
@@ -932,6 +1493,21 @@ def run(ctx):
     run_r4(ctx, r4)
     r4b = ctx.rule("C03-R4b", "binary varint: continuation-bit protocol (writer's last group < 0x80, all bits emitted, same shift and masks as the reader)", floor=5)
     run_r4b(ctx, r4b)
+    # R15: what a line's placeholders are pointed at is that line's text only if the per-line buffers were emptied for
+    # the line: the reset discipline of C10-R1, run here too
+    from .c10 import run_r1 as c10_r1
+    r15 = ctx.rule("C03-R15", "per-item buffers are cleared before they are filled, so an item carries its own text and conditions only (shared with C10-R1)", floor=9)
+    c10_r1(ctx, r15)
+    r14 = ctx.rule("C03-R14", "BTOR2 placeholders (constants, justice conditions, symbol) are pointed at the buffer the parser filled for them", floor=5)
+    run_r14(ctx, r14)
+    r13 = ctx.rule("C03-R13", "binary and gates: writer and reader chain the two deltas the same way and step the running code by 2", floor=5)
+    run_r13(ctx, r13)
+    r12 = ctx.rule("C03-R12", "fields of a struct or variant are written in the order in which they are parsed", floor=4)
+    run_r12(ctx, r12)
+    r5b = ctx.rule("C03-R5b", "only trailing zero counts are left out of the AIGER header (zero tests decide from the back)", floor=1)
+    run_r5b(ctx, r5b)
+    r11 = ctx.rule("C03-R11", "whole-file AIGER writers emit the sections in the order the parsers fill them; header counts come from the fields of the same name", floor=27)
+    run_r11(ctx, r11)
     r10 = ctx.rule("C03-R10", "free text is handed out verbatim: identity conversions only, and only the terminator byte is cut off", floor=5)
     run_r10(ctx, r10)
     # what the writers emit reaches the sink complete: the Write impl every formatted number and header goes through
